@@ -18,10 +18,20 @@ func init() {
 var c08clocks = []int{0, 1, 2, 9, 10, 11, 49, 50, 51, 55, 56, 99, 100, 101, 499, 500, 501, 999, 1000, 1001,
 	5000, 59999, 60000, 300000, 999999, 1000000, 1000001, 1111112, 3600000, 86400000, 259200000, 1 << 39}
 
+var c08huge = []int{1<<61 - 1, 1 << 60, 1<<60 + 1, 153722867280912930, 153722867280912931, 461168601842738790, 461168601842738791,
+	1 << 57, 1<<58 - 1, 1 << 41, 1<<40 + 1}
+
 func c08pick(r *common.Rng) int {
-	switch r.Intn(4) {
+	switch r.Intn(5) {
 	case 0:
 		return c08clocks[r.Intn(len(c08clocks))]
+	case 4:
+		// far beyond any real clock: products and sums wrap in int64 (the model writes the wraps out; TimeMore.v proves
+		// the bounds for every int64 input). Kept below 2^61 so that the OCaml driver's native ints hold every value.
+		if r.Chance(1, 4) {
+			return c08huge[r.Intn(len(c08huge))]
+		}
+		return int(r.U64() % (1 << 61))
 	case 1:
 		return r.Intn(2000)
 	case 2:
